@@ -675,7 +675,7 @@ def z6(spec):
     _setup(prob, spec, driver)
     inputs = [
         Inp("loads", _loads(nyh, 2.0e5), "rel", -0.5, 0.5, special=[0.0]),
-    ] + ([Inp("load_factor", 1.0, "uni", 0.5, 2.5, special=[1.0])] if s["struct_weight_relief"] else []) + [
+    ] + ([Inp("load_factor", 1.0, "uni", 0.5, 2.5, special=[1.0, 0.0])] if s["struct_weight_relief"] else []) + [
         # the very thin values are admissible (an optimiser's infeasible iterates): stresses far beyond the
         # allowable, where the KS aggregate has to stay finite
         Inp("wing.thickness_cp", np.array([0.05, 0.1, 0.15]), "rel", -0.3, 0.5, special=[0.004, 0.002, 0.5]),
@@ -713,7 +713,7 @@ def z7(spec):
     _setup(prob, spec)
     inputs = [
         Inp("loads", _loads(nyh, 5e4), "rel", -0.5, 0.5, special=[0.0]),
-        Inp("load_factor", 1.0, "uni", 0.5, 2.5, special=[1.0]),
+        Inp("load_factor", 1.0, "uni", 0.5, 2.5, special=[1.0, 0.0]),
         Inp("point_masses", np.array([[8000.0]]), "rel", -0.5, 0.5, special=[0.0]),
         Inp("engine_thrusts", np.array([[80.0e3]]), "rel", -0.5, 0.5, special=[0.0]),
         Inp("point_mass_locations", np.array([[25.0, -10.0, -1.0]]), "abs", -1.0, 1.0),
@@ -921,7 +921,7 @@ def z8(spec):
         Inp("engine_thrusts", np.array([[80.0e3]]), "rel", -0.5, 0.5, special=[0.0]),
         Inp("point_mass_locations", np.array([[25.0, -10.0, -1.0]]), "abs", -1.0, 1.0),
     ] if spec.get("pm") else []) + [
-        Inp("load_factor", 1.0, "uni", 0.8, 2.5, special=[1.0]),
+        Inp("load_factor", 1.0, "uni", 0.8, 2.5, special=[1.0]),  # lf = 0 is inadmissible here: L_equals_W divides by W*lf
         Inp("wing.twist_cp", twist_cp, "abs", -2.0, 2.0),
         Inp("wing.thickness_cp", np.array([0.1, 0.2, 0.3]), "rel", -0.3, 0.5),
         Inp("wing.geometry.t_over_c_cp", np.array([0.15]), "rel", -0.2, 0.2),
@@ -975,7 +975,7 @@ def z9(spec):
         Inp("AS_point_0.coupled.aero_states.cg", np.array([2.0, 0.0, 0.0]), "abs", -1.0, 1.0),
     ] if rot else []) + [
         Inp("beta", 1.0, "uni", -3.0, 3.0, special=[0.0]),
-        Inp("load_factor", 1.0, "uni", 0.8, 2.5, special=[1.0]),
+        Inp("load_factor", 1.0, "uni", 0.8, 2.5, special=[1.0]),  # lf = 0 is inadmissible here: L_equals_W divides by W*lf
         Inp("wing.twist_cp", np.array([2.0, 4.0, 2.0]), "abs", -1.5, 1.5),
         Inp("wing.thickness_cp", np.array([0.05, 0.08, 0.05]), "rel", -0.2, 0.5),
         Inp("tail.twist_cp", np.array([0.0]), "abs", -2.0, 2.0, special=[0.0]),
@@ -1008,7 +1008,7 @@ def z10(spec):
     flight["fuel_mass"] = (10000.0, "kg")
     prob, coupled = _as_problem(spec, [s], flight, fuel_vol=True)
     inputs = _as_inputs(flight, alpha=(0.0, 4.0), mach=(0.7, 0.87), wind_off=True) + [
-        Inp("load_factor", 1.0, "uni", 0.8, 2.5, special=[1.0]),
+        Inp("load_factor", 1.0, "uni", 0.8, 2.5, special=[1.0]),  # lf = 0 is inadmissible here: L_equals_W divides by W*lf
         Inp("fuel_mass", 10000.0, "rel", -0.5, 1.0),
         Inp("wing.twist_cp", np.linspace(4.0, 9.0, 3), "abs", -1.5, 1.5),
         Inp("wing.spar_thickness_cp", np.linspace(0.004, 0.01, 3), "rel", -0.2, 0.5),
